@@ -7,7 +7,10 @@ monitor (on the implementation, through harness/src/bin/recipe.rs; the property 
                     well-formed) is valid, has no error, and no warning other than the `>>`
                     deprecation notice (recognised structurally: Analysis stage, every label inside a
                     `>>` line; allowed only when the generator wrote `>>` metadata lines).  The marked
-                    base recipe of every catalogue case is checked the same way.
+                    base recipe of every catalogue case is checked the same way, and so are recipes
+                    with a reference that repeats the inheritable modifiers of its definition
+                    (RECIPE/HIDDEN/OPT on ingredients, HIDDEN/OPT on cookware), written with `&` or
+                    implicit in `[duplicate]: ref` mode.
   (b) completeness  each construct of checks/c07_catalog.py, spliced at many placements into an
       + placement   otherwise well-formed recipe, under each enabling configuration: a diagnostic of the
                     documented severity whose first label intersects (zero-width: is adjacent to) the
@@ -16,7 +19,10 @@ monitor (on the implementation, through harness/src/bin/recipe.rs; the property 
                     and every diagnostic has stage Parse; no Parse-stage error => output present (an
                     analysis error keeps it); and the report is made of the parser's own diagnostics:
                     with a parse error it IS the parser's diagnostic list (severity, labels, in order),
-                    otherwise its Parse-stage part is.
+                    otherwise its Parse-stage part is.  Evaluated on every case, including double
+                    splices: an analysis-stage invalid construct EARLIER in the recipe than a
+                    parse-stage one (and the converse order as control) - the parse error must
+                    suppress the output and every analysis diagnostic collected before it.
 correspondence      L-ev projected on diagnostics (severity, label spans, order) between Model/Parser.v
                     and the PullParser, full and metadata-only streams, on every spliced and every
                     well-formed text under its extension set (pc.run_both)."""
@@ -166,6 +172,46 @@ def sound_cases(rng, n):
     return out
 
 
+def sound_ref_cases(rng, n):
+    """well-formed references that repeat modifiers of their definition (RECIPE/HIDDEN/OPT on
+    ingredients, HIDDEN/OPT on cookware: what resolve_reference inherits), explicit and - in
+    `[duplicate]: ref` mode - implicit"""
+    out = []
+    exp_cfg = [(cat.X_MOD, "e"), (cat.X_COMPAT, "b"), (cat.X_ALL, "b"), (cat.X_MOD | cat.X_ALIAS | cat.X_RANGE, "e")]
+    imp_cfg = [(cat.X_MOD | cat.X_MODES, "e"), (cat.X_COMPAT, "b"), (cat.X_ALL, "b")]
+    for i in range(n):
+        if i % 3 == 2:
+            ext, conv = imp_cfg[(i // 3) % len(imp_cfg)]
+            sp = cat.wf_implicit_reference(rng, ext)
+            prof = "implicit-reference-repeating-modifiers"
+        else:
+            ext, conv = exp_cfg[(i // 3) % len(exp_cfg)]
+            sp = cat.wf_reference(rng, ext)
+            prof = "reference-repeating-modifiers"
+        if sp is None:
+            continue
+        out.append({"kind": "sound", "text": sp["text"], "ext": ext, "conv": conv, "old_style": sp["old_style"],
+                    "profile": prof, "pair": sp["pair"], "tags": sp["tags"]})
+    return out
+
+
+def double_cases(rng, n):
+    """an analysis-stage and a parse-stage invalid construct in one recipe, in both orders"""
+    out = []
+    for i in range(n):
+        ea = cat.BY_ID[cat.DOUBLE_ANALYSIS[i % len(cat.DOUBLE_ANALYSIS)]]
+        ep = cat.BY_ID[rng.choice(cat.DOUBLE_PARSE)]
+        cfgs = cat.double_configs(ea, ep)
+        ext, conv = cfgs[(i // len(cat.DOUBLE_ANALYSIS)) % len(cfgs)]
+        analysis_first = i % 4 != 3          # the converse order is the control
+        sp = cat.double_splice(rng, ea, ep, ext, analysis_first)
+        if sp is None:
+            continue
+        sp.update({"kind": "double", "entry": ep.id, "analysis_entry": ea.id, "ext": ext, "conv": conv, "sev": "e"})
+        out.append(sp)
+    return out
+
+
 def catalog_cases(rng, per):
     out = []
     for en in cat.CATALOG:
@@ -207,7 +253,7 @@ def run_recipe(bindir, triples):
 
 def replay_of(c, extra=None):
     d = {"input": c["text"], "input_hex": hx(c["text"]), "ext": c["ext"], "conv": c["conv"], "case_kind": c["kind"]}
-    for k in ("entry", "a", "b", "sev", "tags", "old_style", "profile"):
+    for k in ("entry", "analysis_entry", "a", "b", "aa", "ab", "sev", "tags", "old_style", "profile", "pair"):
         if k in c:
             d[k] = c[k]
     if extra:
@@ -226,7 +272,9 @@ def run(rep, tier, seed):
 
     corpus = corpus_cases()
     sound = [c for c in corpus if c["kind"] == "sound"] + sound_cases(rng, 6000 if quick else 60000)
+    sound += sound_ref_cases(rng, 1500 if quick else 15000)
     catalog = [c for c in corpus if c["kind"] == "catalog"] + catalog_cases(rng, 30 if quick else 220)
+    doubles = double_cases(rng, 1600 if quick else 16000)
     bases = []
     seen_base = set()
     for c in catalog:
@@ -234,12 +282,15 @@ def run(rep, tier, seed):
             seen_base.add((c["base"], c["ext"], c["conv"]))
             bases.append({"kind": "base", "text": c["base"], "ext": c["ext"], "conv": c["conv"],
                           "old_style": c["old_style"], "profile": "base-of-" + c["entry"]})
-    allc = sound + bases + catalog
+    allc = sound + bases + catalog + doubles
     res = run_recipe(bindir, [(c["text"], c["ext"], c["conv"]) for c in allc])
 
     hits = []
     panics = 0
-    counts = {"sound_cases": 0, "sound_with_notice": 0, "base_cases": 0, "catalog_cases": 0, "catalog_found": 0}
+    counts = {"sound_cases": 0, "sound_with_notice": 0, "base_cases": 0, "catalog_cases": 0, "catalog_found": 0,
+              "sound_ref_cases": 0, "double_cases": 0, "double_analysis_first": 0, "double_parse_first": 0,
+              "double_parse_error_found": 0}
+    double_pairs = set()
     per_entry = {}
     per_class = {}
     placements = {}
@@ -251,8 +302,26 @@ def run(rep, tier, seed):
         tb = c["text"].encode("utf-8")
         for v in mon_validity(j):
             hits.append((c["text"], "validity equation broken: " + v, replay_of(c, {"diags": j["diags"]})))
+        if c["kind"] == "double":
+            # two invalid constructs: the parse-stage one must be diagnosed on its bytes, and - by the
+            # validity equations evaluated above - there is no output and nothing but Parse-stage
+            # diagnostics, wherever the analysis-stage construct sits
+            counts["double_cases"] += 1
+            counts["double_analysis_first" if "analysis-first" in c["tags"] else "double_parse_first"] += 1
+            double_pairs.add((c["analysis_entry"], c["entry"]))
+            v = mon_complete(j, "e", c["a"], c["b"])
+            if v is None and not any(d[0] == "e" and d[1] == "Parse" for d in j["diags"]):
+                v = "the error on the parse-stage construct is not of the Parse stage"
+            if v is None:
+                counts["double_parse_error_found"] += 1
+            else:
+                hits.append((c["text"], "double splice %s + %s under extensions %d: %s" % (
+                    c["analysis_entry"], c["entry"], c["ext"], v), replay_of(c, {"diags": j["diags"]})))
+            continue
         if c["kind"] in ("sound", "base"):
             counts["sound_cases" if c["kind"] == "sound" else "base_cases"] += 1
+            if c.get("pair"):
+                counts["sound_ref_cases"] += 1
             if any(is_notice(d, tb) for d in j["diags"]):
                 counts["sound_with_notice"] += 1
             for v in mon_sound(j, tb, c["old_style"]):
@@ -280,7 +349,7 @@ def run(rep, tier, seed):
 
     # ---- correspondence L-ev on diagnostics, and the report against the parser's diagnostic list
     by_ext = {}
-    for c in sound + catalog:
+    for c in sound + catalog + doubles:
         by_ext.setdefault(c["ext"], []).append(c)
     dis = []
     lev_cases = 0
@@ -321,16 +390,23 @@ def run(rep, tier, seed):
                           "(Model/Analysis.v), so the labels of analysis diagnostics are monitored on the "
                           "implementation only")
     missing = sorted(k for k in cat.CLASSES if not per_class.get(k))
-    distinct = set(c["text"] for c in catalog) | set(c["text"] for c in sound if any(ch in c["text"] for ch in "@#~"))
+    distinct = set(c["text"] for c in catalog + doubles) | set(c["text"] for c in sound if any(ch in c["text"] for ch in "@#~"))
     samples = []
     for c in (catalog[len(corpus):len(corpus) + 1] + catalog[len(catalog) // 2:len(catalog) // 2 + 2] + catalog[-1:]):
         j = res[(c["text"], c["ext"], c["conv"])]
         samples.append({"entry": c["entry"], "ext": c["ext"], "conv": c["conv"], "input": c["text"],
                         "construct_bytes": [c["a"], c["b"]], "placement": c["tags"], "expected_severity": c["sev"],
                         "diags": [[d[0], d[1], d[2]] for d in j.get("diags", [])]})
-    for c in sound[len(corpus):len(corpus) + 2]:
+    for c in doubles[:2]:
         j = res[(c["text"], c["ext"], c["conv"])]
-        samples.append({"well_formed": c["profile"], "ext": c["ext"], "conv": c["conv"], "input": c["text"],
+        samples.append({"double_splice": [c["analysis_entry"], c["entry"]], "ext": c["ext"], "conv": c["conv"],
+                        "input": c["text"], "parse_construct_bytes": [c["a"], c["b"]],
+                        "analysis_construct_bytes": [c["aa"], c["ab"]], "placement": c["tags"],
+                        "diags": [[d[0], d[1], d[2]] for d in j.get("diags", [])]})
+    for c in sound[len(corpus):len(corpus) + 2] + [c for c in sound if c.get("pair")][:2]:
+        j = res[(c["text"], c["ext"], c["conv"])]
+        samples.append({"well_formed": c["profile"], "reference_pair": c.get("pair"), "ext": c["ext"],
+                        "conv": c["conv"], "input": c["text"],
                         "diags": [[d[0], d[1], d[2]] for d in j.get("diags", [])]})
     rep.coverage.update({
         "evaluations": len(res) + lev_cases, "distinct_nontrivial": len(distinct),
@@ -341,12 +417,17 @@ def run(rep, tier, seed):
                 "generator leaves between two pieces of a step (first/middle/last step, first step after a section, "
                 "optionally on a wrapped line, glued to a multi-byte character, set-up in an earlier step), at a "
                 "safe line start (blocks) or as the front matter, under each enabling configuration; the base "
-                "recipe of each splice is itself checked to be diagnostic-free; distinct_nontrivial = distinct "
+                "recipe of each splice is itself checked to be diagnostic-free; well-formed references that repeat "
+                "the inheritable modifiers of their definition (explicit, and implicit in `[duplicate]: ref` mode) "
+                "are spliced the same way and must be diagnostic-free; double splices put an analysis-stage and a "
+                "parse-stage construct into one recipe (analysis one first, and the converse as control): no output, "
+                "only Parse-stage diagnostics, the parse error on its construct; distinct_nontrivial = distinct "
                 "spliced texts + distinct well-formed texts containing a component"
                 % (len(cat.CATALOG), len(cat.CLASSES)),
         "samples": samples,
         "soundness": {"recipes": counts["sound_cases"], "splice_bases": counts["base_cases"],
-                      "with_deprecation_notice": counts["sound_with_notice"]},
+                      "with_deprecation_notice": counts["sound_with_notice"],
+                      "references_repeating_inherited_modifiers": counts["sound_ref_cases"]},
         "completeness": {"cases": counts["catalog_cases"], "diagnosed_on_the_construct": counts["catalog_found"],
                          "classes_covered": sorted(per_class), "classes_missing": missing,
                          "per_class": per_class, "placements": placements},
@@ -355,6 +436,10 @@ def run(rep, tier, seed):
                               "severity": cat.BY_ID[k].sev if k in cat.BY_ID else "-",
                               "source": cat.BY_ID[k].src if k in cat.BY_ID else "-"}
                           for k, v in sorted(per_entry.items())},
+        "double_splices": {"cases": counts["double_cases"], "analysis_construct_first": counts["double_analysis_first"],
+                           "parse_construct_first_control": counts["double_parse_first"],
+                           "parse_error_on_its_construct": counts["double_parse_error_found"],
+                           "distinct_construct_pairs": len(double_pairs)},
         "validity_equation_cases": len(allc) - panics, "report_vs_parser_diag_cases": glue_cases,
         "panicking_cases_skipped": panics,
         "correspondence_cases": lev_cases, "correspondence_disagreements": len(dis),
@@ -395,7 +480,7 @@ def replay(rp):
     kind = r.get("case_kind", "sound")
     if kind in ("sound", "base"):
         bad += mon_sound(j, tb, r.get("old_style", True))
-    elif kind == "catalog":
+    elif kind in ("catalog", "double"):
         v = mon_complete(j, r["sev"], r["a"], r["b"])
         if v:
             bad.append(v)
